@@ -160,14 +160,14 @@ Definition schk (c : str * option Z) : bool := ozeqb (scan_interval (fst c)) (sn
 	vl := make([][]string, *shards)
 	sl := make([][]string, *shards)
 	for i, c := range vcases {
-		vl[i%*shards] = append(vl[i%*shards], fmt.Sprintf("(%d%%nat, %s)", i, c))
+		vl[i%*shards] = append(vl[i%*shards], fmt.Sprintf("(%d%%N, %s)", i, c))
 	}
 	for i, c := range scases {
-		sl[i%*shards] = append(sl[i%*shards], fmt.Sprintf("(%d%%nat, %s)", i, c))
+		sl[i%*shards] = append(sl[i%*shards], fmt.Sprintf("(%d%%N, %s)", i, c))
 	}
 	for k := 0; k < *shards; k++ {
-		body := hdr + "Definition vcases : list (nat * (Z * str * option Z)) := [\n" + strings.Join(vl[k], ";\n") + "].\n" +
-			"Definition scases : list (nat * (str * option Z)) := [\n" + strings.Join(sl[k], ";\n") + "].\n" +
+		body := hdr + "Definition vcases : list (N * (Z * str * option Z)) := [\n" + strings.Join(vl[k], ";\n") + "].\n" +
+			"Definition scases : list (N * (str * option Z)) := [\n" + strings.Join(sl[k], ";\n") + "].\n" +
 			"Definition vbad := Eval vm_compute in map fst (filter (fun c => negb (vchk (snd c))) vcases).\nPrint vbad.\n" +
 			"Definition sbad := Eval vm_compute in map fst (filter (fun c => negb (schk (snd c))) scases).\nPrint sbad.\n"
 		if err := os.WriteFile(filepath.Join(*out, fmt.Sprintf("codec_%02d.v", k)), []byte(body), 0o644); err != nil {
